@@ -236,7 +236,7 @@ func (fv *FuncVC) runLoop(ls *loopSpec, st *State) *State {
 		}
 		if all {
 			if h == "alloc" {
-				fv.addFact(head, fmt.Sprintf("(forall ((r Ref)) (! (=> (select %s r) (select %s r)) :pattern ((select %s r))))", pre[h], H, pre[h]))
+				fv.addFact(head, fmt.Sprintf("(forall ((r Ref)) (! (=> (select %s r) (select %s r)) :pattern ((select %s r)) :pattern ((select %s r))))", pre[h], H, pre[h], H))
 			}
 			continue
 		}
@@ -254,6 +254,9 @@ func (fv *FuncVC) runLoop(ls *loopSpec, st *State) *State {
 			continue
 		}
 		framable := true
+		if h == "alloc" {
+			framable = false // the allocated set only grows: stated as such (usable in both directions)
+		}
 		var W []string
 		seen := map[string]bool{}
 		for _, r := range recs {
@@ -275,7 +278,7 @@ func (fv *FuncVC) runLoop(ls *loopSpec, st *State) *State {
 		}
 		if !framable {
 			if h == "alloc" {
-				fv.addFact(head, fmt.Sprintf("(forall ((r Ref)) (! (=> (select %s r) (select %s r)) :pattern ((select %s r))))", pre[h], H, pre[h]))
+				fv.addFact(head, fmt.Sprintf("(forall ((r Ref)) (! (=> (select %s r) (select %s r)) :pattern ((select %s r)) :pattern ((select %s r))))", pre[h], H, pre[h], H))
 			}
 			continue
 		}
